@@ -69,8 +69,11 @@ def run(replay=None):
     events, byid = [], {}
     eid = 0
     sid = 0
-    for name, params in languages(thorough):
-        sents, r = grammar.enumerate_language(params)
+    from harness.common import seed as _seed
+    from harness.corpus import simulated
+    runs = [(name, params, None) for name, params in languages(thorough)] + list(simulated(thorough))
+    for name, params, sim in runs:
+        sents, r = grammar.enumerate_language(params, simulate=sim, seed=_seed() + 1) if sim else grammar.enumerate_language(params)
         rep.add_tlc(r)
         rep.count('sentences_' + name, len(sents))
         entry = ENTRY[params['Start']]
